@@ -818,6 +818,282 @@ def compute_stream(R: Run, ops, cxE):
         R.corr(f"c02 zto {gs} N N", lambda: enc(tgt.compute_zoom_to()), sig=f"compute_zoom_to|{tname}|nothing")
 
 
+# ------------------------------------------------------------------ I. exact quarter turns and the composition law of rotate
+def rotation_stream(R: Run, ops, cxE, cxF):
+    H = _H()
+    GB, Affine, rng = ops.GB, ops.Affine, R.rng
+    for it in range(R.pick(60, 500)):
+        g, cls = H.gen_gbox_exact(rng, GB, Affine, nmax=32)
+        if not H.narrow(tuple(H.aff_of(g))[:6], 28):
+            continue
+        ny, nx = map(int, g.shape)
+        for k in range(-8, 9):
+            deg = rng.choice([90 * k, float(90 * k), np.float64(90 * k)])
+            R.corr(f"c02 rotq {H.enc_gb(g)} {k}", lambda: H.enc_gb(g.rotate(deg)), sig=f"rotate-quarter|k mod 4={k % 4}|{cls}")
+        # composition: rotate(a).rotate(b) and rotate(a + b) are the same geobox (exact angles: exactly; any angle: same footprint)
+        a, b = rng.choice([0, 90, 180, 270, -90, 450]), rng.choice([0, 90, 180, 270, -180, 360])
+        case = H.case_of("rotate-compose", g, f"{a} {b}")
+        try:
+            two, one = g.rotate(a).rotate(b), g.rotate(a + b)
+            R.oracle(tuple(H.aff_of(two))[:6] == tuple(H.aff_of(one))[:6] and two.shape == one.shape and two.crs == one.crs,
+                     "rotate-composition", case, f"rotate({a}).rotate({b}) = {two} but rotate({a + b}) = {one}", sig="rotate-compose|exact")
+            full = g.rotate(a).rotate(360 - a)
+            R.oracle(tuple(H.aff_of(full))[:6] == tuple(H.aff_of(g))[:6], "rotate-composition", case,
+                     f"rotate({a}).rotate({360 - a}) = {full} is not the original {g}", sig="rotate-compose|full-turn")
+        except Exception as e:  # pylint: disable=broad-except
+            R.oracle(False, "rotate-composition", case, f"{type(e).__name__}: {e}")
+    for it in range(R.pick(60, 500)):
+        g, kind = H.gen_gbox_float(rng, GB, Affine)
+        ny, nx = map(int, g.shape)
+        a, b = rng.uniform(-360, 360), rng.uniform(-360, 360)
+        case = H.case_of("rotate-compose", g, f"{a!r} {b!r}")
+        try:
+            two, one = g.rotate(a).rotate(b), g.rotate(a + b)
+            A2, A1 = H.fa(H.aff_of(two)), H.fa(H.aff_of(one))
+            sc = H.world_scale(H.fa(H.aff_of(g)), (ny, nx))
+            ok = all(cxF.pt_close(H.fa_apply(A2, p_), H.fa_apply(A1, p_), sc) for p_ in H.sample_pix(rng, (ny, nx)))
+            R.oracle(ok and two.shape == one.shape, "rotate-composition", case,
+                     f"rotate({a}).rotate({b}) and rotate({a + b}) have different footprints", sig="rotate-compose|float")
+        except Exception as e:  # pylint: disable=broad-except
+            R.oracle(False, "rotate-composition", case, f"{type(e).__name__}: {e}")
+
+
+# ------------------------------------------------------------------ J. regions in ANOTHER crs, tied exactly
+_FRESH = {}
+
+
+def fresh_transform(src, dst, pts):
+    """images of points under a fresh pyproj transformer (trusted; what Geometry.to_crs applies vertex by vertex)"""
+    import pyproj
+    k = (str(src), str(dst))
+    if k not in _FRESH:
+        _FRESH[k] = pyproj.Transformer.from_crs(pyproj.CRS.from_user_input(k[0]), pyproj.CRS.from_user_input(k[1]), always_xy=True)
+    out = []
+    for x, y in pts:
+        X, Y = _FRESH[k].transform(x, y)
+        out.append((float(X), float(Y)))
+    return out
+
+
+def cross_crs_stream(R: Run, ops, cxE):
+    """gbox[region] / enclosing(region) / project(geom) for a region in another CRS.  The parent is a power-of-two grid
+    anchored at the origin of its CRS, so wld2pix is exact on ANY double; the model receives the images of the region's
+    vertices (fresh pyproj transformer) as a table: everything after the reprojection is compared exactly."""
+    H = _H()
+    from odc.geo import geom as G
+    GB, Affine, rng, TNI = ops.GB, ops.Affine, R.rng, ops.TNI
+    for it in range(R.pick(220, 2200)):
+        ptag = rng.choice([1, 2, 3])
+        rtag = rng.choice([t for t in (1, 2, 3) if t != ptag])
+        pcrs, rcrs = H.CRS_TAGS[ptag], H.CRS_TAGS[rtag]
+        e = rng.randint(-14, -8) if ptag == 1 else rng.randint(0, 8)
+        sx, sy = rng.choice([-1, 1]) * 2.0**e, rng.choice([-1, 1, -1]) * 2.0**e
+        A = Affine(sx, 0, 0, 0, sy, 0) if rng.random() < 0.7 else Affine(0, sy, 0, sx, 0, 0)
+        ny, nx = rng.randint(1, 20), rng.randint(1, 20)
+        g = GB.GeoBox((ny, nx), A, pcrs)
+        k = rng.choice([1, 2, 3, 4, 5])
+        pp = [(rng.randint(-16, 8 * nx + 16) / 8.0, rng.randint(-16, 8 * ny + 16) / 8.0) for _ in range(k)]
+        if rng.random() < 0.3:
+            pp = [(float(rng.randint(0, nx)), float(rng.randint(0, ny))) for _ in range(k)]  # on pixel edges: floor / ceil decide
+        vv = fresh_transform(pcrs, rcrs, [g.pix2wld(x, y) for x, y in pp])
+        if not all(math.isfinite(c) for v in vv for c in v):
+            R.count("cross-crs:skipped-non-finite")
+            continue
+        kind = rng.choice(["bbox", "point", "line", "polygon", "multipoint", "gbox"])
+        if kind == "bbox":
+            xs, ys = [v[0] for v in vv], [v[1] for v in vv]
+            roi = G.BoundingBox(min(xs), min(ys), max(xs), max(ys), rcrs)
+        elif kind == "point":
+            roi = G.point(vv[0][0], vv[0][1], rcrs)
+        elif kind == "line":
+            roi = G.line((vv * 2)[:max(2, k)], rcrs)
+        elif kind == "multipoint":
+            roi = G.multipoint(vv, rcrs)
+        elif kind == "polygon":
+            ring = (vv * 3)[:max(3, k)]
+            roi = G.polygon(ring + [ring[0]], rcrs)
+        else:
+            er = rng.randint(-14, -10) if rtag == 1 else rng.randint(-2, 6)
+            q = 2.0 ** (er - 2)
+            roi = GB.GeoBox((rng.randint(1, 6), rng.randint(1, 6)),
+                            Affine(2.0**er, 0, round(vv[0][0] / q) * q, 0, -(2.0**er), round(vv[0][1] / q) * q), rcrs)
+        vs, _, _ = H.region_vertices(roi)
+        ws = fresh_transform(rcrs, pcrs, vs)
+        if not all(math.isfinite(c) for w in ws for c in w):
+            R.count("cross-crs:skipped-non-finite")
+            continue
+        table = list_s([f"{frac_s(a)};{frac_s(b)};{frac_s(c)};{frac_s(d)}" for (a, b), (c, d) in dict(zip(vs, ws)).items()])
+        ptok = list_s([f"{frac_s(x)};{frac_s(y)}" for x, y in vs])
+        sig = f"{H.CRS_TAGS[rtag]}->{H.CRS_TAGS[ptag]}|{kind}"
+        res, rese = [], []
+
+        def fi():
+            o = g[roi]
+            res.append(o)
+            return H.enc_gb(o)
+        if kind == "gbox":
+            R.corr(f"c02 giGT {H.enc_gb(g)} {H.enc_gb(roi)} {table}", _tni(fi, TNI), sig="cross-crs|getitem|" + sig)
+        else:
+            rtoks = (f"{rtag} B " + " ".join(frac_s(v) for v in roi.bbox)) if kind == "bbox" else f"{rtag} G {ptok}"
+            R.corr(f"c02 giRT {H.enc_gb(g)} {rtoks} {table}", _tni(fi, TNI), sig="cross-crs|getitem|" + sig)
+
+            def fe():
+                o = g.enclosing(roi)
+                rese.append(o)
+                return H.enc_gb(o)
+            R.corr(f"c02 enclT {H.enc_gb(g)} {rtoks} {table}", _tni(fe, TNI), sig="cross-crs|enclosing|" + sig)
+            if kind != "bbox":
+                def fp():
+                    o = g.project(roi)
+                    vs2, c2, _ = H.region_vertices(o)
+                    return f"{H.crs_tag(c2)} " + list_s([f"{frac_s(x)};{frac_s(y)}" for x, y in vs2])
+                R.corr(f"c02 projT {H.enc_gb(g)} {rtag} {ptok} {table}", _tni(fp, TNI), sig="cross-crs|project|" + sig)
+        # independent exact window: pixel coordinates of the re-projected vertices (exact division by a power of two),
+        # rounded outwards; clipped to the parent and at least one pixel for gbox[...]; unclipped for enclosing
+        Af = H.fa(H.aff_of(g))
+        det = Af[0] * Af[4] - Af[1] * Af[3]
+        pix = [((Af[4] * F(x) - Af[1] * F(y)) / det, (Af[0] * F(y) - Af[3] * F(x)) / det) for x, y in ws]
+        lo = (min(p_[0] for p_ in pix), min(p_[1] for p_ in pix))
+        hi = (max(p_[0] for p_ in pix), max(p_[1] for p_ in pix))
+        case = {"op": "cross-crs", "gbox": H.enc_gb(g), "args": {"kind": kind, "crs": rtag, "pts": [f"{frac_s(x)};{frac_s(y)}" for x, y in vs][:12]}}
+        # a vertex within 1e-6 px of a pixel edge is decided by the last bits of the reprojection: left to the correspondence
+        edgy = any(abs(c - round(c)) <= F(1, 10**6) for p_ in pix for c in p_)
+        for got, clip, keyp in ((res, True, "region"), (rese, False, "enclosing")):
+            if not got or edgy:
+                continue
+            o = got[0]
+            L, B_ = math.floor(lo[0]), math.floor(lo[1])
+            Rr, T_ = math.ceil(hi[0]), math.ceil(hi[1])
+            if clip:
+                L, B_, Rr, T_ = max(L, 0), max(B_, 0), min(Rr, nx), min(T_, ny)
+            want_shape = (max(1, T_ - B_), max(1, Rr - L))
+            want_A = H.fa_mul(Af, H.fa_tr(L, B_))
+            R.oracle(tuple(map(int, o.shape)) == want_shape and H.fa(H.aff_of(o)) == want_A and o.crs == g.crs, keyp + "-window", case,
+                     f"{keyp} of a {kind} given in {rcrs} on a {pcrs} grid: got shape {tuple(o.shape)} affine {tuple(H.aff_of(o))[:6]}; the "
+                     f"re-projected vertices span pixel cols {float(lo[0])}..{float(hi[0])}, rows {float(lo[1])}..{float(hi[1])}",
+                     sig=f"cross-crs|{keyp}|exact-window")
+
+
+# ------------------------------------------------------------------ K. coordinates keys / geographic_extent by kind of CRS; qr2sample
+def crs_kind_stream(R: Run, ops, cxE):
+    H = _H()
+    import pyproj
+    GB, Affine, rng = ops.GB, ops.Affine, R.rng
+    kinds = {0: "N"}
+    for t, name in H.CRS_TAGS.items():
+        if name is not None:
+            kinds[t] = "G" if pyproj.CRS.from_user_input(name).is_geographic else "P"   # independent of odc.geo.crs
+    for it in range(R.pick(80, 600)):
+        g, cls = H.gen_gbox_exact(rng, GB, Affine, nmax=12)
+        tag = H.crs_tag(g.crs)
+        k = kinds[tag]
+
+        def fm():
+            co = g.coordinates
+            return list_s([f"{name}:{frac_s(c.resolution)}" for name, c in co.items()])
+        R.corr(f"c02 cmeta {H.enc_gb(g)} {k}", fm, sig=f"coords-meta|{k}|{cls}")
+        try:
+            co = list(g.coordinates.items())
+            Af = H.fa(H.aff_of(g))
+            want = ("latitude", "longitude") if k == "G" else ("y", "x")
+            ok = tuple(n_ for n_, _ in co) == want and F(co[0][1].resolution) == Af[4] and F(co[1][1].resolution) == Af[0] and \
+                len(co[0][1].values) == int(g.shape[0]) and len(co[1][1].values) == int(g.shape[1])
+            R.oracle(ok, "coords-keys", H.case_of("cmeta", g, k),
+                     f"coordinates of a {'geographic' if k == 'G' else 'projected' if k == 'P' else 'CRS-less'} geobox {tuple(g.shape)}: "
+                     f"{[(n_, len(c.values), c.resolution) for n_, c in co]}; rows first, named {want}", sig="coords-keys|" + k)
+        except ValueError:
+            pass  # not axis aligned (judged by coords-raised-on-axis-aligned / the correspondence)
+        if min(g.shape) > 0:
+            def fg():
+                ge, ex = g.geographic_extent, g.extent
+                return "T" if (ge is ex or (ge.crs == ex.crs and list(ge.exterior.points) == list(ex.exterior.points))) else "F"
+            R.corr(f"c02 gextk {H.enc_gb(g)} {k}", fg, sig=f"geographic-extent|{k}")
+        if k == "P" and min(g.shape) > 0:
+            try:
+                ge = g.geographic_extent
+                R.oracle(str(ge.crs).upper() == "EPSG:4326", "geographic-extent-crs", H.case_of("gextk", g, k),
+                         f"geographic_extent of a projected geobox has crs {ge.crs}", trivial=True)
+            except Exception:  # pylint: disable=broad-except
+                R.count("geographic-extent:raised (far outside the CRS domain)")
+
+
+def qr2sample_stream(R: Run, ops, cxE):
+    """qr2sample: n quasi-random points inside the pixel rectangle (at least `padding` from the edges), no CRS, the
+    sequence is a fixed one (offset k = drop the first k), with_edges adds edge samples incl. the four corners"""
+    H = _H()
+    GB, Affine, rng = ops.GB, ops.Affine, R.rng
+    for it in range(R.pick(60, 600)):
+        g, _ = H.gen_gbox_exact(rng, GB, Affine, nmax=64)
+        ny, nx = map(int, g.shape)
+        n = rng.choice([1, 2, 5, 20, 100])
+        pad = rng.choice([None, None, 0.0, 0.25, 0.5 * min(nx, ny) * rng.random()])
+        off = rng.choice([0, 0, 1, 3, 17])
+        edges = rng.random() < 0.4
+        case = H.case_of("qr2sample", g, f"n={n} padding={pad} with_edges={edges} offset={off}")
+        try:
+            q = g.qr2sample(n, padding=pad, with_edges=edges, offset=off)
+            pts = [tuple(p.coords[0]) for p in q.geoms]
+            eps = 1e-5 * max(nx, ny)   # the scale vector is float32
+            lo = (pad or 0.0) if not edges else 0.0
+            inside = all(lo - eps <= x <= nx - lo + eps and lo - eps <= y <= ny - lo + eps for x, y in pts)
+            ok = q.crs is None and inside and (len(pts) == n if not edges else len(pts) >= n + 4)
+            if edges:
+                ok = ok and all(any(abs(x - cx_) <= eps and abs(y - cy_) <= eps for x, y in pts) for cx_, cy_ in [(0, 0), (nx, 0), (nx, ny), (0, ny)])
+                inner = pts[:n]
+                if pad is not None:
+                    ok = ok and all(pad - eps <= x <= nx - pad + eps and pad - eps <= y <= ny - pad + eps for x, y in inner)
+            else:
+                longer = [tuple(p.coords[0]) for p in g.qr2sample(n + off, padding=pad).geoms]
+                ok = ok and longer[off:] == pts
+            R.oracle(ok, "qr2sample-contract", case, f"qr2sample -> {len(pts)} points, first {pts[:3]}", sig="qr2sample|" + ("edges" if edges else "plain"))
+        except Exception as e:  # pylint: disable=broad-except
+            R.oracle(False, "qr2sample-contract", case, f"{type(e).__name__}: {e}")
+
+
+# ------------------------------------------------------------------ L. the proved algebraic laws, evaluated on the real objects
+def laws_stream(R: Run, ops, cxE):
+    """window / zoom / affine-composition laws of Props/C02Glue §8, §11 on the real code (exact stream: equality of
+    shape, affine and CRS): crop undoes pad, pad undoes an inner crop, zoom_to(shape) = zoom_out(k) when the shape
+    divides, zoom there and back, (gbox * T) * S = gbox * (T * S), world-side factors commute with views, flips are
+    involutions."""
+    H = _H()
+    GB, Affine, rng = ops.GB, ops.Affine, R.rng
+
+    def same(a, b):
+        return tuple(map(int, a.shape)) == tuple(map(int, b.shape)) and tuple(H.aff_of(a))[:6] == tuple(H.aff_of(b))[:6] and a.crs == b.crs
+    for it in range(R.pick(150, 1500)):
+        g, cls = H.gen_gbox_exact(rng, GB, Affine, nmax=32)
+        if not H.narrow(tuple(H.aff_of(g))[:6], 26):
+            continue
+        ny, nx = map(int, g.shape)
+        px, py = rng.randint(0, 5), rng.randint(0, 5)
+        checks = []
+        try:
+            checks.append(("crop-of-pad", same(g.pad(px, py)[py:py + ny, px:px + nx], g), f"pad({px},{py})[{py}:{py + ny}, {px}:{px + nx}]"))
+            p_, q_ = rng.randint(0, nx // 2), rng.randint(0, ny // 2)
+            if p_ <= nx - p_ and q_ <= ny - q_ and nx - p_ > p_ and ny - q_ > q_:
+                checks.append(("pad-of-crop", same(g[q_:ny - q_, p_:nx - p_].pad(p_, q_), g), f"[{q_}:{ny - q_}, {p_}:{nx - p_}].pad({p_},{q_})"))
+            ks = [k for k in (2, 4, 8) if ny % k == 0 and nx % k == 0]
+            for k in ks[:1]:
+                z = g.zoom_to((ny // k, nx // k))
+                checks.append(("zoom-to-is-zoom-out", same(z, g.zoom_out(float(k))), f"zoom_to({(ny // k, nx // k)}) vs zoom_out({k})"))
+                checks.append(("zoom-roundtrip", same(z.zoom_to((ny, nx)), g), f"zoom_to({(ny // k, nx // k)}).zoom_to({(ny, nx)})"))
+            T = Affine(2.0, 0.0, rng.randint(-8, 8) / 2.0, 0.0, 0.5, rng.randint(-8, 8) / 4.0)
+            S = Affine(0.0, -1.0, rng.randint(-4, 4) * 1.0, 1.0, 0.0, rng.randint(-4, 4) * 1.0)
+            checks.append(("pixel-side-assoc", same((g * T) * S, g * (T * S)), "(g * T) * S vs g * (T * S)"))
+            checks.append(("world-side-assoc", same(S * (T * g), (S * T) * g), "S * (T * g) vs (S * T) * g"))
+            checks.append(("sides-commute", same(T * (g * S), (T * g) * S), "T * (g * S) vs (T * g) * S"))
+            y0, x0 = rng.randint(0, ny - 1), rng.randint(0, nx - 1)
+            checks.append(("world-side-commutes-with-crop", same((T * g)[y0:, x0:], T * g[y0:, x0:]), "(T * g)[roi] vs T * g[roi]"))
+            checks.append(("world-side-commutes-with-pad", same((T * g).pad(px, py), T * g.pad(px, py)), "(T * g).pad vs T * g.pad"))
+            checks.append(("flip-involution", same(g.flipx().flipx(), g) and same(g.flipy().flipy(), g), "flipx().flipx() / flipy().flipy()"))
+        except Exception as e:  # pylint: disable=broad-except
+            R.oracle(False, "view-law-raised", H.case_of("laws", g, ""), f"{type(e).__name__}: {e}")
+            continue
+        for name, ok, what in checks:
+            R.oracle(ok, "view-law-" + name, H.case_of("laws", g, what), f"{name}: {what} differ on {g}", sig="view-law|" + name)
+
+
 def glue_stream(R: Run, ops, cxE, cxF):
     shape_stream(R, ops, cxE)
     zoom_to_stream(R, ops, cxE)
@@ -828,6 +1104,11 @@ def glue_stream(R: Run, ops, cxE, cxF):
     gcp_exact_stream(R, ops, cxE)
     gcp_to_crs_stream(R, ops, cxE)
     compute_stream(R, ops, cxE)
+    rotation_stream(R, ops, cxE, cxF)
+    cross_crs_stream(R, ops, cxE)
+    crs_kind_stream(R, ops, cxE)
+    qr2sample_stream(R, ops, cxE)
+    laws_stream(R, ops, cxE)
 
 
 # ------------------------------------------------------------------ replay of the glue oracles
@@ -985,6 +1266,74 @@ def replay_glue(R2: Run, g, op, args, key) -> bool:
         else:
             R2.oracle("resolution" in seen and abs(seen["resolution"] * npoints - max(bb.span_x, bb.span_y)) <= 1e-9 * max(bb.span_x, bb.span_y),
                       key, {"op": op}, "densification step * npoints is not the longer side of the bounding box")
+        return True
+    if op == "cross-crs":
+        from odc.geo import geom as G
+        pts = [tuple(float(F(v)) for v in t.split(";")) for t in args["pts"]]
+        rcrs = H.CRS_TAGS.get(int(args["crs"]))
+        roi = G.multipoint(pts, rcrs)
+        ws = fresh_transform(rcrs, g.crs, pts)
+        Af = H.fa(H.aff_of(g))
+        det = Af[0] * Af[4] - Af[1] * Af[3]
+        pix = [((Af[4] * (F(x) - Af[2]) - Af[1] * (F(y) - Af[5])) / det, (Af[0] * (F(y) - Af[5]) - Af[3] * (F(x) - Af[2])) / det) for x, y in ws]
+        lo = (min(p_[0] for p_ in pix), min(p_[1] for p_ in pix))
+        hi = (max(p_[0] for p_ in pix), max(p_[1] for p_ in pix))
+        ny, nx = map(int, g.shape)
+        for name, o, clip in (("gbox[region]", g[roi], True), ("enclosing(region)", g.enclosing(roi), False)):
+            if (key.startswith("region")) != clip:
+                continue
+            L, B_, Rr, T_ = math.floor(lo[0]), math.floor(lo[1]), math.ceil(hi[0]), math.ceil(hi[1])
+            if clip:
+                L, B_, Rr, T_ = max(L, 0), max(B_, 0), min(Rr, nx), min(T_, ny)
+            print(f"{name} for vertices {pts} in {rcrs} ->", o, f"; re-projected vertices span cols {float(lo[0])}..{float(hi[0])}, rows {float(lo[1])}..{float(hi[1])}")
+            R2.oracle(tuple(map(int, o.shape)) == (max(1, T_ - B_), max(1, Rr - L)) and H.fa(H.aff_of(o)) == H.fa_mul(Af, H.fa_tr(L, B_)), key, {"op": op},
+                      f"{name} is not the rounded-out window of the re-projected vertices")
+        return True
+    if op == "rotate-compose":
+        a, b = (float(v) for v in args.split(" "))
+        two, one = g.rotate(a).rotate(b), g.rotate(a + b)
+        print(f"rotate({a}).rotate({b}) = {two}")
+        print(f"rotate({a + b}) = {one}")
+        ny, nx = map(int, g.shape)
+        sc = H.world_scale(H.fa(H.aff_of(g)), (ny, nx))
+        cf = H.Ctx(R2, False)
+        R2.oracle(all(cf.pt_close(H.fa_apply(H.fa(H.aff_of(two)), p_), H.fa_apply(H.fa(H.aff_of(one)), p_), sc) for p_ in H.sample_pix(R2.rng, (ny, nx))),
+                  key, {"op": op}, "footprints differ")
+        return True
+    if op == "qr2sample":
+        m = dict(t.split("=") for t in args.split(" "))
+        n, off = int(m["n"]), int(m["offset"])
+        pad = None if m["padding"] == "None" else float(m["padding"])
+        edges = m["with_edges"] == "True"
+        ny, nx = map(int, g.shape)
+        pts = [tuple(p.coords[0]) for p in g.qr2sample(n, padding=pad, with_edges=edges, offset=off).geoms]
+        print(f"qr2sample(n={n}, padding={pad}, with_edges={edges}, offset={off}) on {(ny, nx)} -> {len(pts)} points: {pts[:8]}")
+        eps = 1e-5 * max(nx, ny)
+        lo = (pad or 0.0) if not edges else 0.0
+        inner = pts[:n]
+        plo = pad or 0.0
+        R2.oracle(all(lo - eps <= x <= nx - lo + eps and lo - eps <= y <= ny - lo + eps for x, y in pts) and
+                  all(plo - eps <= x <= nx - plo + eps and plo - eps <= y <= ny - plo + eps for x, y in inner) and
+                  (len(pts) == n if not edges else len(pts) >= n + 4), key, {"op": op}, "points outside the padded pixel rectangle / wrong count")
+        return True
+    if op == "cmeta":
+        co = list(g.coordinates.items())
+        print("coordinates:", [(n_, len(c.values), c.resolution) for n_, c in co], "affine", tuple(H.aff_of(g))[:6], "crs", g.crs)
+        want = ("latitude", "longitude") if args == "G" else ("y", "x")
+        Af = H.fa(H.aff_of(g))
+        R2.oracle(tuple(n_ for n_, _ in co) == want and F(co[0][1].resolution) == Af[4] and F(co[1][1].resolution) == Af[0], key, {"op": op},
+                  f"keys / resolutions are not {want} with (row, column) resolution")
+        return True
+    if op == "laws":
+        print("law:", args, "on", g, "(re-run check.py for the full evaluation)")
+        ny, nx = map(int, g.shape)
+        ok = tuple(H.aff_of(g.pad(2, 1)[1:1 + ny, 2:2 + nx]))[:6] == tuple(H.aff_of(g))[:6] and \
+            tuple(H.aff_of(g.flipx().flipx()))[:6] == tuple(H.aff_of(g))[:6] and tuple(H.aff_of(g.flipy().flipy()))[:6] == tuple(H.aff_of(g))[:6]
+        T = Affine(2.0, 0.0, 1.5, 0.0, 0.5, -0.25)
+        S = Affine(0.0, -1.0, 2.0, 1.0, 0.0, -3.0)
+        ok = ok and tuple(H.aff_of((g * T) * S))[:6] == tuple(H.aff_of(g * (T * S)))[:6] and tuple(H.aff_of(S * (T * g)))[:6] == tuple(H.aff_of((S * T) * g))[:6] \
+            and tuple(H.aff_of((T * g)[1:, 1:]))[:6] == tuple(H.aff_of(T * g[1:, 1:]))[:6]
+        R2.oracle(ok, key, {"op": op}, "a window / affine-composition law fails on this geobox")
         return True
     if op == "gcp-resolution":
         B = Affine(*[float(F(v)) for v in args.split(";")])
